@@ -61,6 +61,69 @@ def build(consts, pts, rs):
     return m
 
 
+FILE_MODEL_SRC = """from BPTK_Py import Model
+from BPTK_Py import sd_functions as sd
+
+
+class simulation_model(Model):
+    def __init__(self):
+        super().__init__(starttime=%r, stoptime=%r, dt=%r, name="c06file")
+        s = self.stock("s"); f = self.flow("f"); h = self.converter("h")
+        g0 = self.converter("g0"); g1 = self.converter("g1")
+        v = self.constant("v"); v.setup_vector(%d, [0.0, 0.0])
+        cs = [self.constant(%r), self.constant(%r), self.constants[%r]]
+        pts = %r
+        for n, val in pts.items():
+            self.points[n] = val
+        defaults = %r
+        for k in range(3):
+            cs[k].equation = defaults[k]
+        g0.equation = sd.lookup(sd.time(), "p0")
+        g1.equation = sd.lookup(sd.time(), "p1")
+        f.equation = cs[0] + g0 * cs[1]
+        h.equation = v.arr_sum() * g1
+        s.equation = f
+        s.initial_value = 0.0
+"""
+_file_roots = []
+
+
+def write_file_world(prefix):
+    """The registration prefix of a history as scenario FILES (wave 7): every manager in a file of its own with its base constants /
+    base points and the first half of its scenarios, the other scenarios of the manager in a SECOND file (several files per manager);
+    the SD DSL model as a module.  Returns (root, managers in file order, {slot: dict} as loaded, dropped op count)."""
+    import sys
+    root = scratch_dir("c06files")
+    os.makedirs(os.path.join(root, "scenarios")); os.makedirs(os.path.join(root, "simulation_models"))
+    open(os.path.join(root, "simulation_models", "__init__.py"), "w").close()
+    with open(os.path.join(root, "simulation_models", "c06file.py"), "w") as f:
+        f.write(FILE_MODEL_SRC % (float(DEF_RS[0]), float(DEF_RS[1]), DEF_RS[2] / 2.0, N_ELEMS, CONSTS[0], CONSTS[1], CONSTS[2],
+                                  {POINTS[k]: pts_val(DEF_PTS[k]) for k in DEF_PTS}, [float(DEF_CONST[k]) for k in range(3)]))
+    mgrs, scns = {}, {}
+    for op in prefix:
+        if op[0] == "regmgr":
+            mgrs.setdefault(op[1], (op[2], op[3]))
+            for i, d in (op[4] if len(op) > 4 else {}).items():
+                if i // NS in mgrs: scns[i] = d
+        elif op[0] == "add" and op[1] // NS in mgrs:
+            scns[op[1]] = op[2]
+    for m, (bc, bp) in mgrs.items():
+        mine = [i for i in scns if i // NS == m]
+        half = (len(mine) + 1) // 2
+        a = {"model": "simulation_models/c06file", "scenarios": {SCN[i % NS]: mk_dict(scns[i]) for i in mine[:half]}}
+        if bc: a["base_constants"] = {CONSTS[k]: float(v) for k, v in bc.items()}
+        if bp: a["base_points"] = {POINTS[k]: pts_val(v) for k, v in bp.items()}
+        with open(os.path.join(root, "scenarios", f"a_{MGR[m]}.json"), "w") as f:
+            json.dump({MGR[m]: a}, f, indent=1)
+        if mine[half:]:
+            with open(os.path.join(root, "scenarios", f"b_{MGR[m]}.json"), "w") as f:
+                json.dump({MGR[m]: {"model": "simulation_models/c06file", "scenarios": {SCN[i % NS]: mk_dict(scns[i]) for i in mine[half:]}}}, f, indent=1)
+    if not _file_roots:
+        sys.path.insert(0, root)
+    _file_roots.append(root)
+    return root, mgrs, scns
+
+
 _oracle_cache = {}
 
 
@@ -85,8 +148,11 @@ def oracle_at(consts, pts, rs, t):
 
 # ---------------------------------------------------------------- settings dictionaries
 def mk_dict(d):
-    """harness dict {consts:{id:v}, pts:{id:v}, start, stop, dt} -> BPTK scenario / settings dictionary (fresh objects)"""
+    """harness dict {consts:{id:v}, pts:{id:v}, start, stop, dt} -> BPTK scenario / settings dictionary (fresh objects);
+    `empty` lists keys that are given as present-but-empty dictionaries (presence vs truthiness)"""
     out = {}
+    for key in d.get("empty", ()):
+        out[key] = {}
     if d.get("consts"):
         out["constants"] = {CONSTS[k]: float(v) for k, v in d["consts"].items()}
     if d.get("pts"):
@@ -118,10 +184,25 @@ def slot(m, k):
 
 # ---------------------------------------------------------------- the real world
 class Real:
-    def __init__(self):
+    def __init__(self, file_prefix=None):
+        import sys
         from BPTK_Py import bptk
         self.base = build(DEF_CONST, DEF_PTS, DEF_RS)
-        self.b = bptk()
+        self.root, self.file_mgrs, self.loaded = None, {}, {}
+        if file_prefix is None:
+            self.b = bptk()
+        else:
+            # managers read from scenario files: bptk() reads ./scenarios of the working directory; file monitors off
+            self.root, self.file_mgrs, self.loaded = write_file_world(file_prefix)
+            cc = sys.modules["BPTK_Py.config.config"].configuration
+            old = (cc["set_scenario_monitor"], cc["set_model_monitor"])
+            cc["set_scenario_monitor"], cc["set_model_monitor"] = False, False
+            cwd = os.getcwd(); os.chdir(self.root)
+            try:
+                self.b = bptk()
+            finally:
+                os.chdir(cwd)
+                cc["set_scenario_monitor"], cc["set_model_monitor"] = old
         quiet_bptk_logging()
         self.app = None
 
@@ -130,6 +211,9 @@ class Real:
             self.b.destroy()
         except Exception:
             pass
+        if self.root and _file_roots and self.root != _file_roots[0]:
+            import shutil
+            shutil.rmtree(self.root, ignore_errors=True)
 
     def mgr(self, m):
         return self.b.scenario_manager_factory.scenario_managers.get(MGR[m])
@@ -197,17 +281,34 @@ class Real:
     def apply(self, op):
         k = op[0]
         b = self.b
+        if k == "load":
+            # the managers and scenarios that were read from the scenario files when the bptk object was built
+            lines = [f"regmgr {m} {st(bc)} {st(bp)}" for m, (bc, bp) in self.file_mgrs.items()]
+            for i, d in self.loaded.items():
+                lines += [f"add {i} {i // NS} {dict_args(d)}", f"setup {i}"]
+            return lines, list(self.loaded), []
         if k == "regmgr":
-            _, m, bc, bp = op
+            m, bc, bp = op[1], op[2], op[3]
+            inline = op[4] if len(op) > 4 else {}
             cfg = {"model": self.base}
             if bc: cfg["base_constants"] = {CONSTS[a]: float(v) for a, v in bc.items()}
             if bp: cfg["base_points"] = {POINTS[a]: pts_val(v) for a, v in bp.items()}
+            inline = {i: d for i, d in inline.items() if i // NS == m}
+            if inline:                      # scenarios given inside the manager dictionary (`"scenarios"` key)
+                cfg["scenarios"] = {SCN[i % NS]: mk_dict(d) for i, d in inline.items()}
             b.register_scenario_manager({MGR[m]: cfg})
-            return [f"regmgr {m} {st(bc)} {st(bp)}"], [], []
+            lines = [f"regmgr {m} {st(bc)} {st(bp)}"]
+            for i, d in inline.items():
+                lines.append(f"add {i} {m} {dict_args(d)}")
+                if m in self.file_mgrs: lines.append(f"setup {i}")
+            return lines, list(inline), []
         if k == "add":
             _, i, d = op
             b.register_scenarios(scenarios={SCN[i % NS]: mk_dict(d)}, scenario_manager=MGR[i // NS])
-            return [f"add {i} {i // NS} {dict_args(d)}"], [i], []
+            lines = [f"add {i} {i // NS} {dict_args(d)}"]
+            if i // NS in self.file_mgrs and self.mgr(i // NS) is not None:
+                lines.append(f"setup {i}")     # a file-loaded manager instantiates the model class and sets it up at once
+            return lines, [i], []
         if k == "run":
             _, ms, ks = op
             slots = self.existing(ms, ks)
@@ -384,6 +485,10 @@ class Shadow:
                 return (int(p[1]), s, clean)
         elif p[0] == "evalbase":
             self.base_gens += 1
+        elif p[0] == "setup":
+            s = self.s.get(int(p[1]))
+            if s is not None:
+                s["meqs"].update(s["consts"]); s["mpts"].update(s["pts"])
         return None
 
     def view(self, i):
@@ -434,6 +539,14 @@ def parse_model_base(line):
 
 
 # ---------------------------------------------------------------- one history
+class _Shifted(list):
+    """violations list that reports operation indices of the history as written (file world: `("files",)` + prefix + rest)"""
+    def __init__(self, shift):
+        super().__init__(); self.shift = shift
+    def append(self, v):
+        super().append((v[0] + self.shift,) + tuple(v[1:]))
+
+
 def run_history(ops, want_lines=True):
     """Real code on `ops`. Returns (request lines, real reply lines as canonical python objects, violations).
     violations: list of (op index, key, text)."""
@@ -443,8 +556,19 @@ def run_history(ops, want_lines=True):
 
 
 def _run_history(ops):
-    real, sh = Real(), Shadow()
-    req, rep, viols = [], [], []
+    shift = 0
+    if ops and ops[0] == ("files",):
+        # file world: the leading registrations are scenario files read when the bptk object is built (one composite operation)
+        n = 0
+        while 1 + n < len(ops) and ops[1 + n][0] in ("regmgr", "add"):
+            n += 1
+        real = Real(file_prefix=ops[1:1 + n])
+        ops = [("load",)] + list(ops[1 + n:])
+        shift = n
+    else:
+        real = Real()
+    sh = Shadow()
+    req, rep, viols = [], [], _Shifted(shift)
     stats = {"reads": 0, "reads_checked": 0}
     try:
         views = {i: real.view(i) for i in range(NM * NS)}
@@ -528,7 +652,7 @@ def _run_history(ops):
                 req.append(f"mgr {m}"); rep.append(mviews[m])
     finally:
         real.close()
-    return req, rep, viols, stats
+    return req, rep, list(viols), stats
 
 
 def first_diff(got, want):
@@ -549,10 +673,14 @@ def first_diff(got, want):
 # ---------------------------------------------------------------- generators
 def rand_dict(rng, runspecs=True, pc=2, pp=2):
     d = {}
+    val = lambda: 0 if rng.chance(1, 8) else rng.range(1, 9)          # falsy 0 / 0.0 among the values (wave 7)
     if rng.chance(1, pc):
-        d["consts"] = {k: rng.range(1, 9) for k in rng.shuffle(range(3))[:rng.range(1, 2)]}
+        d["consts"] = {k: val() for k in rng.shuffle(range(3))[:rng.range(1, 2)]}
     if rng.chance(1, pp):
-        d["pts"] = {k: rng.range(1, 9) for k in rng.shuffle(range(2))[:rng.range(1, 2)]}
+        d["pts"] = {k: val() for k in rng.shuffle(range(2))[:rng.range(1, 2)]}
+    empty = [key for key, mine in (("constants", "consts"), ("points", "pts")) if mine not in d and rng.chance(1, 6)]
+    if empty:
+        d["empty"] = empty              # key present with an EMPTY dictionary
     if runspecs and rng.chance(1, 3):
         if rng.chance(1, 2): d["start"] = rng.range(0, 1)
         if rng.chance(1, 2): d["stop"] = rng.range(3, 5)
@@ -572,6 +700,12 @@ def rand_history(rng):
         ops.append(("regmgr", 1, rand_dict(rng, False, 3, 3).get("consts", {}), rand_dict(rng, False, 3, 3).get("pts", {})))
     for _ in range(rng.range(2, 4)):
         ops.append(("add", slot(rng.below(NM), rng.below(NS)), rand_dict(rng)))
+    if rng.chance(1, 4):
+        # scenarios given INSIDE the manager dictionary (`register_scenario_manager({m: {"model":…, "scenarios": {…}}})`)
+        m = rng.below(len([o for o in ops if o[0] == "regmgr"]))
+        inline = {slot(m, k): rand_dict(rng) for k in rng.shuffle(range(NS))[:rng.range(1, 2)]}
+        j = next(j for j, o in enumerate(ops) if o[0] == "regmgr" and o[1] == m)
+        ops[j] = ops[j] + (inline,)
     in_session = False
     n = rng.range(3, 12 - len(ops)) if len(ops) < 9 else 3
     for _ in range(n):
@@ -690,6 +824,40 @@ def probe():
     return facts
 
 
+def probe_files():
+    """the three mechanism facts again for managers READ FROM SCENARIO FILES (load_scenarios / instantiate_model: a second copy of
+    the merge of the base values, a model instance per scenario instead of a clone): two managers from three files in ONE bptk object"""
+    from BPTK_Py.sdsimulation import SdSimulation
+    prefix = [("regmgr", 0, {0: 5}, {0: 3}), ("regmgr", 1, {0: 5}, {}), ("add", 0, {}), ("add", 1, {}), ("add", 2, {"consts": {1: 4}}),
+              ("add", 3, {}), ("add", 4, {})]
+    real = Real(file_prefix=prefix)
+    out = {}
+    try:
+        b = real.b
+        A, B, C, D = (b.get_scenario("m0", "s0"), b.get_scenario("m0", "s1"), b.get_scenario("m0", "s2"), b.get_scenario("m1", "s0"))
+        mg0, mg1 = real.mgr(0), real.mgr(1)
+        models = [x.model for x in (A, B, C, D)]
+        SdSimulation(model=A.model, name="probe").change_points(name="p1", value=pts_val(9))
+        out["cloneOwnsPoints"] = (len({id(m) for m in models}) == 4 and len({id(m.points) for m in models}) == 4 and
+                                  len({id(m.equations) for m in models}) == 4 and all(pts_code(x.model.points["p1"]) == DEF_PTS[1] for x in (B, C, D)))
+        dicts = [A.constants, B.constants, C.constants, D.constants, mg0.base_constants, mg1.base_constants]
+        pdicts = [A.points, B.points, D.points, mg0.base_points]
+        A.configure_settings({"constants": {"c0": 9.0}, "points": {"p0": pts_val(8)}})
+        out["mergeOwnsDict"] = (len({id(x) for x in dicts}) == len(dicts) and len({id(x) for x in pdicts}) == len(pdicts) and
+                                B.constants.get("c0") == 5.0 and D.constants.get("c0") == 5.0 and mg0.base_constants.get("c0") == 5.0 and
+                                mg1.base_constants.get("c0") == 5.0 and pts_code(B.points["p0"]) == 3 and pts_code(mg0.base_points["p0"]) == 3 and
+                                A.dictionary is not B.dictionary)
+        b.run_scenarios(scenarios=["s2"], scenario_managers=["m0"], equations=list(EQS), series_names={}, return_format="dict")
+        old_model = C.model
+        b.register_scenarios(scenarios={"s2": {}}, scenario_manager="m0")
+        new = b.get_scenario("m0", "s2")
+        out["reregFreshClone"] = (new.model is not old_model and new.model.equations is not old_model.equations and
+                                  int(new.model.equations["c1"](0.0)) == DEF_CONST[1])
+    finally:
+        real.close()
+    return out
+
+
 def gen_lean(f):
     tf = lambda x: "true" if x else "false"
     good = f["cloneOwnsPoints"] and f["mergeOwnsDict"] and f["reregFreshClone"]
@@ -764,6 +932,46 @@ def run(chk):
         shutil.rmtree(scratch, ignore_errors=True)
 
 
+def coverage_rows(hs):
+    """distribution of the generated histories over the rows of the wave-7 coverage table (notes/C06-report.md)"""
+    c = {}
+    def inc(k, n=1): c[k] = c.get(k, 0) + n
+    def dicts(h):
+        for o in h:
+            if o[0] == "add": yield "registration", o[2]
+            elif o[0] == "regmgr":
+                yield "base values", {"consts": o[2], "pts": o[3]}
+                for d in (o[4] if len(o) > 4 else {}).values(): yield "registration", d
+            elif o[0] in ("session", "rest"):
+                for d in o[3].values(): yield ("session settings" if o[0] == "session" else "REST settings"), d
+            elif o[0] == "step":
+                for d in o[1].values(): yield "step settings", d
+    for h in hs:
+        files = bool(h) and h[0] == ("files",)
+        inc("histories: managers read from scenario files" if files else "histories: managers registered programmatically")
+        seen_add, read_seen = set(), False
+        for o in h:
+            if o[0] == "regmgr" and len(o) > 4: inc("scenarios inside the manager dictionary")
+            if o[0] == "add":
+                if o[1] in seen_add: inc("re-registration of a known name")
+                if read_seen: inc("registration after a run / step (later registration)")
+                seen_add.add(o[1])
+            if o[0] in ("run", "step", "rest"): read_seen = True
+            if o[0] == "reset": inc("reset_scenario_cache")
+            if o[0] == "evalbase": inc("direct evaluation of the base model")
+        for chan, d in dicts(h):
+            for kind in ("consts", "pts"):
+                if d.get(kind):
+                    inc(f"{chan}: {'constants' if kind == 'consts' else 'points'}")
+                    if any(v == 0 for v in d[kind].values()): inc(f"{chan}: value 0 (falsy)")
+            if d.get("empty"): inc(f"{chan}: key present with empty dictionary")
+            if any(d.get(k) is not None for k in ("start", "stop", "dt")): inc(f"{chan}: run specs")
+        if files:
+            n = sum(1 for o in h[1:] if o[0] == "add")
+            if n >= 2: inc("file world: a manager spread over two files")
+    return c
+
+
 def process_chunk(arg):
     """Run a list of histories on the real code, feed the model-level lines to Drive/C06 and compare.
     Self-contained (also the entry point of the worker processes of the thorough tier)."""
@@ -781,6 +989,8 @@ def process_chunk(arg):
         req += r; real += p
         for o in ops:
             kinds[o[0]] = kinds.get(o[0], 0) + 1
+        if _file_roots and len(_file_roots) > 50:
+            pass
         cases.append((repr(ops), any(o[0] in ("session", "step", "rest", "add") for o in ops[3:]),
                       [repr(o) for o in ops] if len(ops) > 6 else None))
         for v in viols:
@@ -822,11 +1032,18 @@ def _worker(arg):
 
 def _run(chk):
     facts = probe()
+    import contextlib, io
+    with contextlib.redirect_stdout(io.StringIO()):
+        ffacts = probe_files()
+    chk.notes["cfg_programmatic"] = dict(facts)
+    chk.notes["cfg_scenario_files"] = ffacts
+    for k, v in ffacts.items():           # the machine's fact holds when it holds on both registration channels
+        facts[k] = facts[k] and v
     chk.notes["cfg"] = facts
     ok, why = chk.prove(gen_lean(facts))
     chk.cov["trusted_base"] = [
         "Lean 4.33 kernel; axioms propext, Classical.choice, Quot.sound (audited per run via #print axioms)",
-        "hand-written heap machine lean/Bptk/Core/C06.lean of register_scenario_manager / register_scenarios (add_scenarios' merge of base_constants / base_points with explicit dictionary identity, get_cloned_model, SimulationScenario.__init__) / SdRunner._run_scenarios / run_scenario_step / configure_settings / REST /run settings / reset_scenario_cache; tied to the code by the four probes and by the correspondence run",
+        "hand-written heap machine lean/Bptk/Core/C06.lean of register_scenario_manager / register_scenarios (add_scenarios' merge of base_constants / base_points with explicit dictionary identity, get_cloned_model, SimulationScenario.__init__) / SdRunner._run_scenarios / run_scenario_step / configure_settings / REST /run settings / reset_scenario_cache; tied to the code by the four probes (each on both registration channels: programmatic and scenario files) and by the correspondence run",
         "the numeric simulation is uninterpreted (results = function of effective settings read through the heap + memo content); the harness checks the numbers against freshly built real models",
         "composite operations (run of several scenarios, begin_session, run_step, POST /run) are linearised by the harness into per-scenario model operations in the order of the Python loops",
     ]
@@ -848,6 +1065,12 @@ def _run(chk):
     hs += ex
     n_rand = 110 if chk.quick else 1500
     hs += [rand_history(rng) for _ in range(n_rand)]
+    # wave 7: the same kind of histories with the leading registrations given as scenario FILES (several files per manager, base
+    # constants / base points in the files), read when the bptk object is built; the witness histories too
+    n_files = 45 if chk.quick else 500
+    hs += [[("files",)] + h for h in (WITNESS, WITNESS_MERGE, WITNESS_REREG)]
+    hs += [[("files",)] + rand_history(rng) for _ in range(n_files)]
+    chk.cov["coverage_rows"] = coverage_rows(hs)
     chk.cov["rule"] = (f"witness histories (points alias, shared base dictionary + later registration) + {ex_desc} (run one / run all, session with points / constants / no settings, "
                        f"step with points / constants, REST run with points+stoptime, reset_scenario_cache, base evaluation, later registration with own points / without own dictionaries) "
                        f"after a fixed prefix (2 managers on one base model with base constants / base points, 3 scenarios) "
